@@ -45,6 +45,12 @@ def units(tier):
     for pen, fi in acc:
         runs.append(dict(solver='AndersonCD', datafit='Quadratic', penalty=pen, X='corr32', max_iter=1, max_epochs=1,
                          max_epochs_unpatched=7, acc_stub=1, p0=2, fit_intercept=fi, ws_strategy='subdiff', warm=True))
+    # warm start from an arbitrary -- possibly infeasible -- point (e.g. the solution of the unconstrained problem):
+    # one outer iteration with one epoch must return a feasible vector, converged or not
+    for pen, fi in ((('L1+', False), ('WeightedL1+', False), ('L1+', True), ('IndicatorBox', False)) if q else
+                    [(pen, fi) for pen in POS for fi in (False, True)]):
+        runs.append(dict(solver='AndersonCD', datafit='Quadratic', penalty=pen, X='corr32', max_iter=1, max_epochs=1, p0=1,
+                         fit_intercept=fi, ws_strategy='subdiff', warm=True, infeasible_start=True))
     for c in runs:
         cid = ','.join('%s=%s' % (k, c[k]) for k in sorted(c))
         us.append(Unit('C04/D/run[%s]' % cid, ST.u_run, dict(cfg=c, want=('feasible',)), wall_s=150, max_paths=5000,
